@@ -56,25 +56,38 @@ def add_responses_contract():
 
         def rfd(I2, a, k):
             if I2.branch_free():
-                prop = SOpaque("prop", cls=object, attrs={"get_lazy_imports": SFunc("model", lambda I3, a3, k3: SSet()),
-                                                           "get_imports": SFunc("model", lambda I3, a3, k3: SSet())})
-                r = SOpaque("response", cls=object, attrs={"prop": prop, "status_code": k["status_code"]})
-                log.append(("ok", k["status_code"], r))
+                prop = SObj(StringProperty, {"name": "response_n", "required": True, "default": None, "python_name": "response_n",
+                                             "description": None, "example": None})
+                r = SObj(RS.Response, {"prop": prop, "status_code": k["status_code"], "source": SOpaque("source"), "data": k["data"]})
+                log.append(("ok", k["status_code"], r, k["data"], k.get("parent_name")))
                 return STuple([r, k["schemas"]])
             e = SObj(ParseError, {"detail": None if I2.branch_free() else SStr(I2.fresh("detail", S)), "data": SOpaque("d"),
                                   "level": None, "header": ""})
-            log.append(("err", k["status_code"], e))
+            log.append(("err", k["status_code"], e, k["data"], k.get("parent_name")))
             return STuple([e, k["schemas"]])
         I.contracts[f"{R}:response_from_data"] = rfd
+        from openapi_python_client.parser.properties.string import StringProperty
+        from openapi_python_client.parser import responses as RS
+        from openapi_python_client import schema as oai
+        for m in ("get_imports", "get_lazy_imports"):
+            fn = getattr(StringProperty, m)
+            I.contracts[f"{fn.__module__}:{fn.__qualname__}"] = lambda I2, a, k: SSet()
         codes = [SStr(z3.Const(f"code{i}", S)) for i in range(2)]
-        items = SList([STuple([c, SOpaque(f"response_data{i}")]) for i, c in enumerate(codes)])
+        # the two statuses are described inline, or by two references -- to the same component or to different ones
+        shape = 0 if I.branch_free() else (1 if I.branch_free() else 2)
+        if shape == 0:
+            datas = [SObj(oai.Response, {"description": f"d{i}", "content": None, "headers": None, "links": None}) for i in range(2)]
+        else:
+            datas = [SObj(oai.Reference, {"ref": "#/components/responses/Err" if shape == 1 or i == 0 else "#/components/responses/Other"})
+                     for i in range(2)]
+        items = SList([STuple([c, d]) for c, d in zip(codes, datas)])
         data = SOpaque("responses", attrs={"items": SFunc("model", lambda I2, a, k: items)})
         ep = SObj(M.Endpoint, {"path": "/p", "method": "get", "description": None, "name": "n", "requires_security": False, "tags": SList(),
                                "summary": "", "relative_imports": SSet(), "query_parameters": SList(), "path_parameters": SList(),
                                "header_parameters": SList(), "cookie_parameters": SList(), "responses": SList(), "bodies": SList(),
                                "errors": SList()})
         kw = dict(endpoint=ep, data=data, schemas=SOpaque("schemas"), responses=SOpaque("component responses"), config=SOpaque("config"))
-        return SFunc("pyfunc", M.Endpoint._add_responses), [], kw, {"ep": ep, "codes": codes, "log": log}
+        return SFunc("pyfunc", M.Endpoint._add_responses), [], kw, {"ep": ep, "codes": codes, "log": log, "datas": datas}
 
     def post(ctx):
         I = ctx.I
@@ -89,6 +102,13 @@ def add_responses_contract():
         oks = [x for x in i["log"] if x[0] == "ok"]
         if n_ok != len(oks) or any(not any(r is x[2] for r in out.fields["responses"].items) for x in oks):
             return False
+        # every status is parsed on its own: its own data (even when two statuses name the same component -- the inline
+        # classes of a response are named after the status), under the operation's name
+        seen = []
+        for x in i["log"]:
+            if not any(x[3] is d for d in i["datas"]) or any(x[3] is y for y in seen) or x[4] != "n":
+                return False
+            seen.append(x[3])
         # every warning names the code
         conds = []
         for e in out.fields["errors"].items:
@@ -101,8 +121,9 @@ def add_responses_contract():
     cl = Clause("per-status-accounting", post,
                 statement="for every documented status: a Response with that status is appended, or a warning naming the status; "
                           "invalid codes (not an int / not an HTTP status) are warnings, never exceptions; the argument endpoint "
-                          "is not mutated", props=["C04", "C07", "C06"])
-    return FnContract(f"{O}:Endpoint._add_responses", [Case("two-statuses", make, [cl], raises=(), props=["C04", "C07", "C06"])])
+                          "is not mutated; every status is parsed from its own entry under the operation's name, also when two "
+                          "statuses refer to the same response component", props=["C04", "C07", "C06", "C20"])
+    return FnContract(f"{O}:Endpoint._add_responses", [Case("two-statuses", make, [cl], raises=(), props=["C04", "C07", "C06", "C20"])])
 
 
 B = "openapi_python_client.parser.bodies"
